@@ -93,7 +93,7 @@ def c02(tier, seed):
         # executors that are run again (after a failure / a success), both flavours: no missing or stale values on the second run
         + [dict(kind="hist15", pid="C02", n_histories=(40 if tier == "quick" else 400), only=["executor_rerun_used_partially_consumed_graph"],
                 **_seeds(seed + 65, k)) for k in range(2 if tier == "quick" else 8)]
-        + diff_jobs("C02", tier, seed, dict(flags=0.2, nest=0.3, nest_flag=0.0, share_fns=0.3), 2, nj_scale=0.5,
+        + diff_jobs("C02", tier, seed, dict(flags=0.2, nest=0.3, nest_flag=0.2, const_flag=0.3, share_fns=0.3), 2, nj_scale=0.5,
                     only=["call_site_received_wrong_values", "tawazi_returned_but_plain_python_raises", "value_only_to_be_passed_on_was_inspected"])
         # the consumers inside a COMPOSED DAG receive the values given for the inputs they depend on (inputs listed in any order)
         + [dict(kind="comp19", pid="C02", n_cases=(150 if tier == "quick" else 1500), only=["composed_value_differs_from_substituted_pipeline"],
@@ -172,7 +172,10 @@ def c04(tier, seed):
 def c05(tier, seed):
     return dict(
         jobs=w3_jobs(seed) + sched_jobs(tier, seed, gen=dict(nmax=8, mc_max=4, seq_rate=0.4), selections=True)
-        + diff_jobs("C05", tier, seed, dict(flags=0.2, nest=0.3, nest_flag=0.2, share_fns=0.3, seq=0.4), 2, nj_scale=0.25, only=[]),
+        + diff_jobs("C05", tier, seed, dict(flags=0.2, nest=0.3, nest_flag=0.2, share_fns=0.3, seq=0.4), 2, nj_scale=0.25, only=[])
+        # nodes whose function is a DAG object, made sequential by a configuration reload: they overlap nothing either
+        + [dict(kind="env", pid="C05", scenarios=["reentrant"], how="dag_object_as_node_function", n_cases=(60 if tier == "quick" else 500),
+                only=["dag_object_node_configured_sequential_overlapped_another_node"], **_seeds(seed + 49, k)) for k in range(2 if tier == "quick" else 6)],
         level="exploration", rule=RULE_SCHED + RULE_W3 + "; 40% of the functions are is_sequential (every resource)",
         assumptions=ASSUME_COMMON, required_reach=["c05_pairs", "FENTER"], parallel=8 if tier == "quick" else 16,
     )
@@ -488,7 +491,9 @@ def c15(tier, seed):
     return dict(
         jobs=[dict(kind="hist15", n_histories=nh, **_seeds(seed, k)) for k in range(nj)]
         # a DAG returned by compose() is a DAG too: its second call does not remember the first one's arguments
-        + [dict(kind="comp19", pid="C15", n_cases=(150 if tier == "quick" else 1500), only=["composed_dag_call_depends_on_an_earlier_call"],
+        + [dict(kind="comp19", pid="C15", n_cases=(150 if tier == "quick" else 1500),
+                only=["composed_dag_call_depends_on_an_earlier_call", "original_dag_executed_set_changed_after_compose", "original_dag_raises_after_compose",
+                      "original_dag_structure_changed_by_compose", "original_dag_value_changed_after_compose"],
                 **_seeds(seed + 33, k)) for k in range(2 if tier == "quick" else 8)]
         # at max_concurrency=1 with tie-free priorities the k-th call of one object starts its nodes in the same order as the first
         + [dict(kind="cp", pid="C15", exhaustive_n=[2, 3, 4] if tier == "quick" else [2, 3, 4, 5], part=0, nparts=1, random_cases=(20 if tier == "quick" else 200),
@@ -602,7 +607,14 @@ def c17(tier, seed):
                       "setup_node_in_selection_did_not_run"], **_seeds(seed + 27, k)) for k in range(3 if tier == "quick" else 8)]
         # one AsyncDAG in several event loops one after the other, in a loop with a one-worker default executor, and awaited again after
         # an await that was cancelled in flight
-        + [dict(kind="env", pid="C17", scenarios=["loops"], n_cases=(40 if tier == "quick" else 400), **_seeds(seed + 29, k)) for k in range(2 if tier == "quick" else 6)],
+        + [dict(kind="env", pid="C17", scenarios=["loops"], n_cases=(40 if tier == "quick" else 400), **_seeds(seed + 29, k)) for k in range(2 if tier == "quick" else 6)]
+        # an executor of an AsyncDAG that is run again behaves like a DAG's (refuses, or runs its whole selection from scratch); an
+        # AsyncDAG shared with threads that build DAGs meanwhile is still called, not traced
+        + [dict(kind="hist15", pid="C17", n_histories=(150 if tier == "quick" else 1000), only=["executor_rerun_used_partially_consumed_graph"],
+                **_seeds(seed + 31, k)) for k in range(2 if tier == "quick" else 6)]
+        + [dict(kind="conc16", pid="C17", n_cases=(48 if tier == "quick" else 320), lockset=False,
+                only=["dag_call_during_other_threads_build_raised", "dag_call_during_other_threads_build_returned_wrong_value", "concurrent_call_raised",
+                      "concurrent_call_got_result_for_other_arguments_or_wrong_value"], **_seeds(seed + 33, k)) for k in range(2 if tier == "quick" else 6)],
         level="exploration",
         rule="per case: (1) one generated program (2..8 call sites, all resources, flags, optional setup nodes) built as DAG and as AsyncDAG and "
         "run under the controller or free: value, multiset of entered call sites and recorded setup results must be equal (and equal to the "
